@@ -528,12 +528,21 @@ Proof.
   rewrite (Permutation_length HP) in Hj. unfold wl_tuples in Hj. rewrite map_length, seq_length in Hj. exact Hj.
 Qed.
 
+Lemma countb_count_occ x l : countb x l = count_occ Nat.eq_dec l x.
+Proof.
+  unfold countb. induction l as [|a l IH]; simpl; [reflexivity|].
+  destruct (Nat.eq_dec a x) as [E|N].
+  - subst a. rewrite Nat.eqb_refl. simpl. rewrite IH. reflexivity.
+  - destruct (Nat.eqb_spec x a) as [E|_]; [congruence | exact IH].
+Qed.
+
 Lemma ms_eqb_perm a b : ms_eqb a b = true -> Permutation a b.
 Proof.
   unfold ms_eqb. rewrite andb_true_iff, !forallb_forall. intros [Ha Hb].
-  apply (Permutation_count_occ Nat.eq_dec). intros x.
+  apply (Permutation_count_occ Nat.eq_dec). intros x. rewrite <- !countb_count_occ.
   destruct (in_dec Nat.eq_dec x a) as [I|NI]; [apply Nat.eqb_eq, Ha, I|].
   destruct (in_dec Nat.eq_dec x b) as [I'|NI']; [apply Nat.eqb_eq, Hb, I'|].
+  rewrite !countb_count_occ.
   rewrite (proj1 (count_occ_not_In Nat.eq_dec a x) NI), (proj1 (count_occ_not_In Nat.eq_dec b x) NI').
   reflexivity.
 Qed.
@@ -541,7 +550,24 @@ Qed.
 Lemma perm_ms_eqb a b : Permutation a b -> ms_eqb a b = true.
 Proof.
   intros P. unfold ms_eqb. apply andb_true_iff. split; apply forallb_forall; intros x _; apply Nat.eqb_eq;
-    apply (Permutation_count_occ Nat.eq_dec); exact P.
+    rewrite !countb_count_occ; apply (Permutation_count_occ Nat.eq_dec); exact P.
+Qed.
+
+Lemma no_hash_collision_lt g powers eps labels :
+  no_hash_collision g powers eps labels = true ->
+  forall u v, u < v -> v < length g -> nthn labels u = nthn labels v ->
+  (Qabs (wl_hash powers labels (row g u) - wl_hash powers labels (row g v)) <= eps)%Q ->
+  Permutation (nbr_labels g labels u) (nbr_labels g labels v).
+Proof.
+  unfold no_hash_collision. rewrite forallb_forall. intros H u v Huv Hv El Hh.
+  assert (Hu : u < length g) by lia.
+  assert (Hu' : In u (seq 0 (length g))) by (apply in_seq; lia).
+  assert (Hv' : In v (seq 0 (length g))) by (apply in_seq; lia).
+  pose proof (H u Hu') as H1. rewrite forallb_forall in H1. pose proof (H1 v Hv') as H2.
+  unfold nthq in H2. rewrite !nth_map_seq in H2 by assumption.
+  apply Nat.ltb_lt in Huv. rewrite Huv in H2.
+  apply Nat.eqb_eq in El. rewrite El in H2. apply Qle_bool_iff in Hh. rewrite Hh in H2.
+  apply ms_eqb_perm. exact H2.
 Qed.
 
 Lemma no_hash_collision_spec g powers eps labels :
@@ -550,15 +576,12 @@ Lemma no_hash_collision_spec g powers eps labels :
   (Qabs (wl_hash powers labels (row g u) - wl_hash powers labels (row g v)) <= eps)%Q ->
   Permutation (nbr_labels g labels u) (nbr_labels g labels v).
 Proof.
-  unfold no_hash_collision. rewrite forallb_forall. intros H u v Hu Hv El Hh.
-  assert (Hu' : In u (seq 0 (length g))) by (apply in_seq; lia).
-  assert (Hv' : In v (seq 0 (length g))) by (apply in_seq; lia).
-  pose proof (H u Hu') as H1. rewrite forallb_forall in H1. pose proof (H1 v Hv') as H2.
-  apply orb_true_iff in H2. destruct H2 as [H2|H2].
-  - exfalso. apply negb_true_iff, andb_false_iff in H2. destruct H2 as [H2|H2].
-    + apply Nat.eqb_neq in H2. contradiction.
-    + apply Qle_bool_iff in Hh. congruence.
-  - apply ms_eqb_perm. exact H2.
+  intros H u v Hu Hv El Hh. destruct (lt_eq_lt_dec u v) as [[L|E]|L].
+  - apply (no_hash_collision_lt g powers eps labels H u v); assumption.
+  - subst v. apply Permutation_refl.
+  - apply Permutation_sym. apply (no_hash_collision_lt g powers eps labels H v u); try assumption.
+    + symmetry. exact El.
+    + rewrite Qabs_Qminus. exact Hh.
 Qed.
 
 (** Unconditional direction: nodes that one refinement step keeps together keep a common colour. *)
@@ -1399,4 +1422,221 @@ Proof.
     + apply (cr_iter_mono g k (length g - k)). replace (k + (length g - k)) with (length g) by lia. exact H.
     + rewrite (cr_iter_fix g k Hwf L u v Hu Hv). exact H.
   - intros H. apply H.
+Qed.
+
+(** * 10. The hypothesis cannot be dropped for the table the implementation builds
+
+    A graph on 90 nodes: the connected antiregular graph on the nodes 0..43 (i ~ j iff i + j >= 43), two
+    nodes 44 and 45 joined to 22 of them each, and a clique 46..89 joined to 44 and 45. The degree classes
+    are stable under refinement except that 44 and 45 see different colours; with [wl_cex_powers], the exact
+    values of the float64 entries of [(-pi / 3.15) ** arange(90)], their two hashes differ by 2.4e-13 <
+    epsilon, so the second round changes no label and the kernel stops. (The real implementation returns the
+    same colours on this graph: harness/props/c02.py runs it.) *)
+Definition wl_cex_g : graph :=
+  [[43; 44];
+   [42; 43; 44];
+   [41; 42; 43; 45];
+   [40; 41; 42; 43; 45];
+   [39; 40; 41; 42; 43; 45];
+   [38; 39; 40; 41; 42; 43; 44];
+   [37; 38; 39; 40; 41; 42; 43; 45];
+   [36; 37; 38; 39; 40; 41; 42; 43; 45];
+   [35; 36; 37; 38; 39; 40; 41; 42; 43; 45];
+   [34; 35; 36; 37; 38; 39; 40; 41; 42; 43; 44];
+   [33; 34; 35; 36; 37; 38; 39; 40; 41; 42; 43; 44];
+   [32; 33; 34; 35; 36; 37; 38; 39; 40; 41; 42; 43; 45];
+   [31; 32; 33; 34; 35; 36; 37; 38; 39; 40; 41; 42; 43; 44];
+   [30; 31; 32; 33; 34; 35; 36; 37; 38; 39; 40; 41; 42; 43; 44];
+   [29; 30; 31; 32; 33; 34; 35; 36; 37; 38; 39; 40; 41; 42; 43; 44];
+   [28; 29; 30; 31; 32; 33; 34; 35; 36; 37; 38; 39; 40; 41; 42; 43; 45];
+   [27; 28; 29; 30; 31; 32; 33; 34; 35; 36; 37; 38; 39; 40; 41; 42; 43; 45];
+   [26; 27; 28; 29; 30; 31; 32; 33; 34; 35; 36; 37; 38; 39; 40; 41; 42; 43; 44];
+   [25; 26; 27; 28; 29; 30; 31; 32; 33; 34; 35; 36; 37; 38; 39; 40; 41; 42; 43; 45];
+   [24; 25; 26; 27; 28; 29; 30; 31; 32; 33; 34; 35; 36; 37; 38; 39; 40; 41; 42; 43; 45];
+   [23; 24; 25; 26; 27; 28; 29; 30; 31; 32; 33; 34; 35; 36; 37; 38; 39; 40; 41; 42; 43; 44];
+   [22; 23; 24; 25; 26; 27; 28; 29; 30; 31; 32; 33; 34; 35; 36; 37; 38; 39; 40; 41; 42; 43; 44];
+   [21; 23; 24; 25; 26; 27; 28; 29; 30; 31; 32; 33; 34; 35; 36; 37; 38; 39; 40; 41; 42; 43; 45];
+   [20; 21; 22; 24; 25; 26; 27; 28; 29; 30; 31; 32; 33; 34; 35; 36; 37; 38; 39; 40; 41; 42; 43; 44];
+   [19; 20; 21; 22; 23; 25; 26; 27; 28; 29; 30; 31; 32; 33; 34; 35; 36; 37; 38; 39; 40; 41; 42; 43; 44];
+   [18; 19; 20; 21; 22; 23; 24; 26; 27; 28; 29; 30; 31; 32; 33; 34; 35; 36; 37; 38; 39; 40; 41; 42; 43; 44];
+   [17; 18; 19; 20; 21; 22; 23; 24; 25; 27; 28; 29; 30; 31; 32; 33; 34; 35; 36; 37; 38; 39; 40; 41; 42; 43; 45];
+   [16; 17; 18; 19; 20; 21; 22; 23; 24; 25; 26; 28; 29; 30; 31; 32; 33; 34; 35; 36; 37; 38; 39; 40; 41; 42; 43; 44];
+   [15; 16; 17; 18; 19; 20; 21; 22; 23; 24; 25; 26; 27; 29; 30; 31; 32; 33; 34; 35; 36; 37; 38; 39; 40; 41; 42; 43; 45];
+   [14; 15; 16; 17; 18; 19; 20; 21; 22; 23; 24; 25; 26; 27; 28; 30; 31; 32; 33; 34; 35; 36; 37; 38; 39; 40; 41; 42; 43; 45];
+   [13; 14; 15; 16; 17; 18; 19; 20; 21; 22; 23; 24; 25; 26; 27; 28; 29; 31; 32; 33; 34; 35; 36; 37; 38; 39; 40; 41; 42; 43; 45];
+   [12; 13; 14; 15; 16; 17; 18; 19; 20; 21; 22; 23; 24; 25; 26; 27; 28; 29; 30; 32; 33; 34; 35; 36; 37; 38; 39; 40; 41; 42; 43; 44];
+   [11; 12; 13; 14; 15; 16; 17; 18; 19; 20; 21; 22; 23; 24; 25; 26; 27; 28; 29; 30; 31; 33; 34; 35; 36; 37; 38; 39; 40; 41; 42; 43; 44];
+   [10; 11; 12; 13; 14; 15; 16; 17; 18; 19; 20; 21; 22; 23; 24; 25; 26; 27; 28; 29; 30; 31; 32; 34; 35; 36; 37; 38; 39; 40; 41; 42; 43; 45];
+   [9; 10; 11; 12; 13; 14; 15; 16; 17; 18; 19; 20; 21; 22; 23; 24; 25; 26; 27; 28; 29; 30; 31; 32; 33; 35; 36; 37; 38; 39; 40; 41; 42; 43; 44];
+   [8; 9; 10; 11; 12; 13; 14; 15; 16; 17; 18; 19; 20; 21; 22; 23; 24; 25; 26; 27; 28; 29; 30; 31; 32; 33; 34; 36; 37; 38; 39; 40; 41; 42; 43; 44];
+   [7; 8; 9; 10; 11; 12; 13; 14; 15; 16; 17; 18; 19; 20; 21; 22; 23; 24; 25; 26; 27; 28; 29; 30; 31; 32; 33; 34; 35; 37; 38; 39; 40; 41; 42; 43; 44];
+   [6; 7; 8; 9; 10; 11; 12; 13; 14; 15; 16; 17; 18; 19; 20; 21; 22; 23; 24; 25; 26; 27; 28; 29; 30; 31; 32; 33; 34; 35; 36; 38; 39; 40; 41; 42; 43; 44];
+   [5; 6; 7; 8; 9; 10; 11; 12; 13; 14; 15; 16; 17; 18; 19; 20; 21; 22; 23; 24; 25; 26; 27; 28; 29; 30; 31; 32; 33; 34; 35; 36; 37; 39; 40; 41; 42; 43; 45];
+   [4; 5; 6; 7; 8; 9; 10; 11; 12; 13; 14; 15; 16; 17; 18; 19; 20; 21; 22; 23; 24; 25; 26; 27; 28; 29; 30; 31; 32; 33; 34; 35; 36; 37; 38; 40; 41; 42; 43; 45];
+   [3; 4; 5; 6; 7; 8; 9; 10; 11; 12; 13; 14; 15; 16; 17; 18; 19; 20; 21; 22; 23; 24; 25; 26; 27; 28; 29; 30; 31; 32; 33; 34; 35; 36; 37; 38; 39; 41; 42; 43; 45];
+   [2; 3; 4; 5; 6; 7; 8; 9; 10; 11; 12; 13; 14; 15; 16; 17; 18; 19; 20; 21; 22; 23; 24; 25; 26; 27; 28; 29; 30; 31; 32; 33; 34; 35; 36; 37; 38; 39; 40; 42; 43; 45];
+   [1; 2; 3; 4; 5; 6; 7; 8; 9; 10; 11; 12; 13; 14; 15; 16; 17; 18; 19; 20; 21; 22; 23; 24; 25; 26; 27; 28; 29; 30; 31; 32; 33; 34; 35; 36; 37; 38; 39; 40; 41; 43; 44];
+   [0; 1; 2; 3; 4; 5; 6; 7; 8; 9; 10; 11; 12; 13; 14; 15; 16; 17; 18; 19; 20; 21; 22; 23; 24; 25; 26; 27; 28; 29; 30; 31; 32; 33; 34; 35; 36; 37; 38; 39; 40; 41; 42; 45];
+   [0; 1; 5; 9; 10; 12; 13; 14; 17; 20; 21; 23; 24; 25; 27; 31; 32; 34; 35; 36; 37; 42; 46; 47; 48; 49; 50; 51; 52; 53; 54; 55; 56; 57; 58; 59; 60; 61; 62; 63; 64; 65; 66; 67; 68; 69; 70; 71; 72; 73; 74; 75; 76; 77; 78; 79; 80; 81; 82; 83; 84; 85; 86; 87; 88; 89];
+   [2; 3; 4; 6; 7; 8; 11; 15; 16; 18; 19; 22; 26; 28; 29; 30; 33; 38; 39; 40; 41; 43; 46; 47; 48; 49; 50; 51; 52; 53; 54; 55; 56; 57; 58; 59; 60; 61; 62; 63; 64; 65; 66; 67; 68; 69; 70; 71; 72; 73; 74; 75; 76; 77; 78; 79; 80; 81; 82; 83; 84; 85; 86; 87; 88; 89];
+   [44; 45; 47; 48; 49; 50; 51; 52; 53; 54; 55; 56; 57; 58; 59; 60; 61; 62; 63; 64; 65; 66; 67; 68; 69; 70; 71; 72; 73; 74; 75; 76; 77; 78; 79; 80; 81; 82; 83; 84; 85; 86; 87; 88; 89];
+   [44; 45; 46; 48; 49; 50; 51; 52; 53; 54; 55; 56; 57; 58; 59; 60; 61; 62; 63; 64; 65; 66; 67; 68; 69; 70; 71; 72; 73; 74; 75; 76; 77; 78; 79; 80; 81; 82; 83; 84; 85; 86; 87; 88; 89];
+   [44; 45; 46; 47; 49; 50; 51; 52; 53; 54; 55; 56; 57; 58; 59; 60; 61; 62; 63; 64; 65; 66; 67; 68; 69; 70; 71; 72; 73; 74; 75; 76; 77; 78; 79; 80; 81; 82; 83; 84; 85; 86; 87; 88; 89];
+   [44; 45; 46; 47; 48; 50; 51; 52; 53; 54; 55; 56; 57; 58; 59; 60; 61; 62; 63; 64; 65; 66; 67; 68; 69; 70; 71; 72; 73; 74; 75; 76; 77; 78; 79; 80; 81; 82; 83; 84; 85; 86; 87; 88; 89];
+   [44; 45; 46; 47; 48; 49; 51; 52; 53; 54; 55; 56; 57; 58; 59; 60; 61; 62; 63; 64; 65; 66; 67; 68; 69; 70; 71; 72; 73; 74; 75; 76; 77; 78; 79; 80; 81; 82; 83; 84; 85; 86; 87; 88; 89];
+   [44; 45; 46; 47; 48; 49; 50; 52; 53; 54; 55; 56; 57; 58; 59; 60; 61; 62; 63; 64; 65; 66; 67; 68; 69; 70; 71; 72; 73; 74; 75; 76; 77; 78; 79; 80; 81; 82; 83; 84; 85; 86; 87; 88; 89];
+   [44; 45; 46; 47; 48; 49; 50; 51; 53; 54; 55; 56; 57; 58; 59; 60; 61; 62; 63; 64; 65; 66; 67; 68; 69; 70; 71; 72; 73; 74; 75; 76; 77; 78; 79; 80; 81; 82; 83; 84; 85; 86; 87; 88; 89];
+   [44; 45; 46; 47; 48; 49; 50; 51; 52; 54; 55; 56; 57; 58; 59; 60; 61; 62; 63; 64; 65; 66; 67; 68; 69; 70; 71; 72; 73; 74; 75; 76; 77; 78; 79; 80; 81; 82; 83; 84; 85; 86; 87; 88; 89];
+   [44; 45; 46; 47; 48; 49; 50; 51; 52; 53; 55; 56; 57; 58; 59; 60; 61; 62; 63; 64; 65; 66; 67; 68; 69; 70; 71; 72; 73; 74; 75; 76; 77; 78; 79; 80; 81; 82; 83; 84; 85; 86; 87; 88; 89];
+   [44; 45; 46; 47; 48; 49; 50; 51; 52; 53; 54; 56; 57; 58; 59; 60; 61; 62; 63; 64; 65; 66; 67; 68; 69; 70; 71; 72; 73; 74; 75; 76; 77; 78; 79; 80; 81; 82; 83; 84; 85; 86; 87; 88; 89];
+   [44; 45; 46; 47; 48; 49; 50; 51; 52; 53; 54; 55; 57; 58; 59; 60; 61; 62; 63; 64; 65; 66; 67; 68; 69; 70; 71; 72; 73; 74; 75; 76; 77; 78; 79; 80; 81; 82; 83; 84; 85; 86; 87; 88; 89];
+   [44; 45; 46; 47; 48; 49; 50; 51; 52; 53; 54; 55; 56; 58; 59; 60; 61; 62; 63; 64; 65; 66; 67; 68; 69; 70; 71; 72; 73; 74; 75; 76; 77; 78; 79; 80; 81; 82; 83; 84; 85; 86; 87; 88; 89];
+   [44; 45; 46; 47; 48; 49; 50; 51; 52; 53; 54; 55; 56; 57; 59; 60; 61; 62; 63; 64; 65; 66; 67; 68; 69; 70; 71; 72; 73; 74; 75; 76; 77; 78; 79; 80; 81; 82; 83; 84; 85; 86; 87; 88; 89];
+   [44; 45; 46; 47; 48; 49; 50; 51; 52; 53; 54; 55; 56; 57; 58; 60; 61; 62; 63; 64; 65; 66; 67; 68; 69; 70; 71; 72; 73; 74; 75; 76; 77; 78; 79; 80; 81; 82; 83; 84; 85; 86; 87; 88; 89];
+   [44; 45; 46; 47; 48; 49; 50; 51; 52; 53; 54; 55; 56; 57; 58; 59; 61; 62; 63; 64; 65; 66; 67; 68; 69; 70; 71; 72; 73; 74; 75; 76; 77; 78; 79; 80; 81; 82; 83; 84; 85; 86; 87; 88; 89];
+   [44; 45; 46; 47; 48; 49; 50; 51; 52; 53; 54; 55; 56; 57; 58; 59; 60; 62; 63; 64; 65; 66; 67; 68; 69; 70; 71; 72; 73; 74; 75; 76; 77; 78; 79; 80; 81; 82; 83; 84; 85; 86; 87; 88; 89];
+   [44; 45; 46; 47; 48; 49; 50; 51; 52; 53; 54; 55; 56; 57; 58; 59; 60; 61; 63; 64; 65; 66; 67; 68; 69; 70; 71; 72; 73; 74; 75; 76; 77; 78; 79; 80; 81; 82; 83; 84; 85; 86; 87; 88; 89];
+   [44; 45; 46; 47; 48; 49; 50; 51; 52; 53; 54; 55; 56; 57; 58; 59; 60; 61; 62; 64; 65; 66; 67; 68; 69; 70; 71; 72; 73; 74; 75; 76; 77; 78; 79; 80; 81; 82; 83; 84; 85; 86; 87; 88; 89];
+   [44; 45; 46; 47; 48; 49; 50; 51; 52; 53; 54; 55; 56; 57; 58; 59; 60; 61; 62; 63; 65; 66; 67; 68; 69; 70; 71; 72; 73; 74; 75; 76; 77; 78; 79; 80; 81; 82; 83; 84; 85; 86; 87; 88; 89];
+   [44; 45; 46; 47; 48; 49; 50; 51; 52; 53; 54; 55; 56; 57; 58; 59; 60; 61; 62; 63; 64; 66; 67; 68; 69; 70; 71; 72; 73; 74; 75; 76; 77; 78; 79; 80; 81; 82; 83; 84; 85; 86; 87; 88; 89];
+   [44; 45; 46; 47; 48; 49; 50; 51; 52; 53; 54; 55; 56; 57; 58; 59; 60; 61; 62; 63; 64; 65; 67; 68; 69; 70; 71; 72; 73; 74; 75; 76; 77; 78; 79; 80; 81; 82; 83; 84; 85; 86; 87; 88; 89];
+   [44; 45; 46; 47; 48; 49; 50; 51; 52; 53; 54; 55; 56; 57; 58; 59; 60; 61; 62; 63; 64; 65; 66; 68; 69; 70; 71; 72; 73; 74; 75; 76; 77; 78; 79; 80; 81; 82; 83; 84; 85; 86; 87; 88; 89];
+   [44; 45; 46; 47; 48; 49; 50; 51; 52; 53; 54; 55; 56; 57; 58; 59; 60; 61; 62; 63; 64; 65; 66; 67; 69; 70; 71; 72; 73; 74; 75; 76; 77; 78; 79; 80; 81; 82; 83; 84; 85; 86; 87; 88; 89];
+   [44; 45; 46; 47; 48; 49; 50; 51; 52; 53; 54; 55; 56; 57; 58; 59; 60; 61; 62; 63; 64; 65; 66; 67; 68; 70; 71; 72; 73; 74; 75; 76; 77; 78; 79; 80; 81; 82; 83; 84; 85; 86; 87; 88; 89];
+   [44; 45; 46; 47; 48; 49; 50; 51; 52; 53; 54; 55; 56; 57; 58; 59; 60; 61; 62; 63; 64; 65; 66; 67; 68; 69; 71; 72; 73; 74; 75; 76; 77; 78; 79; 80; 81; 82; 83; 84; 85; 86; 87; 88; 89];
+   [44; 45; 46; 47; 48; 49; 50; 51; 52; 53; 54; 55; 56; 57; 58; 59; 60; 61; 62; 63; 64; 65; 66; 67; 68; 69; 70; 72; 73; 74; 75; 76; 77; 78; 79; 80; 81; 82; 83; 84; 85; 86; 87; 88; 89];
+   [44; 45; 46; 47; 48; 49; 50; 51; 52; 53; 54; 55; 56; 57; 58; 59; 60; 61; 62; 63; 64; 65; 66; 67; 68; 69; 70; 71; 73; 74; 75; 76; 77; 78; 79; 80; 81; 82; 83; 84; 85; 86; 87; 88; 89];
+   [44; 45; 46; 47; 48; 49; 50; 51; 52; 53; 54; 55; 56; 57; 58; 59; 60; 61; 62; 63; 64; 65; 66; 67; 68; 69; 70; 71; 72; 74; 75; 76; 77; 78; 79; 80; 81; 82; 83; 84; 85; 86; 87; 88; 89];
+   [44; 45; 46; 47; 48; 49; 50; 51; 52; 53; 54; 55; 56; 57; 58; 59; 60; 61; 62; 63; 64; 65; 66; 67; 68; 69; 70; 71; 72; 73; 75; 76; 77; 78; 79; 80; 81; 82; 83; 84; 85; 86; 87; 88; 89];
+   [44; 45; 46; 47; 48; 49; 50; 51; 52; 53; 54; 55; 56; 57; 58; 59; 60; 61; 62; 63; 64; 65; 66; 67; 68; 69; 70; 71; 72; 73; 74; 76; 77; 78; 79; 80; 81; 82; 83; 84; 85; 86; 87; 88; 89];
+   [44; 45; 46; 47; 48; 49; 50; 51; 52; 53; 54; 55; 56; 57; 58; 59; 60; 61; 62; 63; 64; 65; 66; 67; 68; 69; 70; 71; 72; 73; 74; 75; 77; 78; 79; 80; 81; 82; 83; 84; 85; 86; 87; 88; 89];
+   [44; 45; 46; 47; 48; 49; 50; 51; 52; 53; 54; 55; 56; 57; 58; 59; 60; 61; 62; 63; 64; 65; 66; 67; 68; 69; 70; 71; 72; 73; 74; 75; 76; 78; 79; 80; 81; 82; 83; 84; 85; 86; 87; 88; 89];
+   [44; 45; 46; 47; 48; 49; 50; 51; 52; 53; 54; 55; 56; 57; 58; 59; 60; 61; 62; 63; 64; 65; 66; 67; 68; 69; 70; 71; 72; 73; 74; 75; 76; 77; 79; 80; 81; 82; 83; 84; 85; 86; 87; 88; 89];
+   [44; 45; 46; 47; 48; 49; 50; 51; 52; 53; 54; 55; 56; 57; 58; 59; 60; 61; 62; 63; 64; 65; 66; 67; 68; 69; 70; 71; 72; 73; 74; 75; 76; 77; 78; 80; 81; 82; 83; 84; 85; 86; 87; 88; 89];
+   [44; 45; 46; 47; 48; 49; 50; 51; 52; 53; 54; 55; 56; 57; 58; 59; 60; 61; 62; 63; 64; 65; 66; 67; 68; 69; 70; 71; 72; 73; 74; 75; 76; 77; 78; 79; 81; 82; 83; 84; 85; 86; 87; 88; 89];
+   [44; 45; 46; 47; 48; 49; 50; 51; 52; 53; 54; 55; 56; 57; 58; 59; 60; 61; 62; 63; 64; 65; 66; 67; 68; 69; 70; 71; 72; 73; 74; 75; 76; 77; 78; 79; 80; 82; 83; 84; 85; 86; 87; 88; 89];
+   [44; 45; 46; 47; 48; 49; 50; 51; 52; 53; 54; 55; 56; 57; 58; 59; 60; 61; 62; 63; 64; 65; 66; 67; 68; 69; 70; 71; 72; 73; 74; 75; 76; 77; 78; 79; 80; 81; 83; 84; 85; 86; 87; 88; 89];
+   [44; 45; 46; 47; 48; 49; 50; 51; 52; 53; 54; 55; 56; 57; 58; 59; 60; 61; 62; 63; 64; 65; 66; 67; 68; 69; 70; 71; 72; 73; 74; 75; 76; 77; 78; 79; 80; 81; 82; 84; 85; 86; 87; 88; 89];
+   [44; 45; 46; 47; 48; 49; 50; 51; 52; 53; 54; 55; 56; 57; 58; 59; 60; 61; 62; 63; 64; 65; 66; 67; 68; 69; 70; 71; 72; 73; 74; 75; 76; 77; 78; 79; 80; 81; 82; 83; 85; 86; 87; 88; 89];
+   [44; 45; 46; 47; 48; 49; 50; 51; 52; 53; 54; 55; 56; 57; 58; 59; 60; 61; 62; 63; 64; 65; 66; 67; 68; 69; 70; 71; 72; 73; 74; 75; 76; 77; 78; 79; 80; 81; 82; 83; 84; 86; 87; 88; 89];
+   [44; 45; 46; 47; 48; 49; 50; 51; 52; 53; 54; 55; 56; 57; 58; 59; 60; 61; 62; 63; 64; 65; 66; 67; 68; 69; 70; 71; 72; 73; 74; 75; 76; 77; 78; 79; 80; 81; 82; 83; 84; 85; 87; 88; 89];
+   [44; 45; 46; 47; 48; 49; 50; 51; 52; 53; 54; 55; 56; 57; 58; 59; 60; 61; 62; 63; 64; 65; 66; 67; 68; 69; 70; 71; 72; 73; 74; 75; 76; 77; 78; 79; 80; 81; 82; 83; 84; 85; 86; 88; 89];
+   [44; 45; 46; 47; 48; 49; 50; 51; 52; 53; 54; 55; 56; 57; 58; 59; 60; 61; 62; 63; 64; 65; 66; 67; 68; 69; 70; 71; 72; 73; 74; 75; 76; 77; 78; 79; 80; 81; 82; 83; 84; 85; 86; 87; 89];
+   [44; 45; 46; 47; 48; 49; 50; 51; 52; 53; 54; 55; 56; 57; 58; 59; 60; 61; 62; 63; 64; 65; 66; 67; 68; 69; 70; 71; 72; 73; 74; 75; 76; 77; 78; 79; 80; 81; 82; 83; 84; 85; 86; 87; 88]].
+Definition wl_cex_powers : list Q :=
+  [(1 # 1)%Q;
+   (-8983159050194845 # 9007199254740992)%Q;
+   (8959183008927235 # 9007199254740992)%Q;
+   (-8935270959686445 # 9007199254740992)%Q;
+   (2227855682919457 # 2251799813685248)%Q;
+   (-2221909538640647 # 2251799813685248)%Q;
+   (8863917058456563 # 9007199254740992)%Q;
+   (-2210064818482253 # 2251799813685248)%Q;
+   (8816664632001405 # 9007199254740992)%Q;
+   (-8793132964146213 # 9007199254740992)%Q;
+   (4384832051142855 # 4503599627370496)%Q;
+   (-8746257878790767 # 9007199254740992)%Q;
+   (4361457063239829 # 4503599627370496)%Q;
+   (-8699632678616865 # 9007199254740992)%Q;
+   (8676413368911885 # 9007199254740992)%Q;
+   (-8653256031518047 # 9007199254740992)%Q;
+   (4315080250515661 # 4503599627370496)%Q;
+   (-4303563306244573 # 4503599627370496)%Q;
+   (1073019275171155 # 1125899906842624)%Q;
+   (-8561243103588433 # 9007199254740992)%Q;
+   (8538393155501493 # 9007199254740992)%Q;
+   (-8515604193899957 # 9007199254740992)%Q;
+   (2123219014002741 # 2251799813685248)%Q;
+   (-264694018109253 # 281474976710656)%Q;
+   (4223800801225107 # 4503599627370496)%Q;
+   (-526565935212519 # 562949953421312)%Q;
+   (2100642125326081 # 2251799813685248)%Q;
+   (-2095035513887513 # 2251799813685248)%Q;
+   (8357775465953941 # 9007199254740992)%Q;
+   (-2083867143189993 # 2251799813685248)%Q;
+   (8313221216638517 # 9007199254740992)%Q;
+   (-2072758309671299 # 2251799813685248)%Q;
+   (8268904480419747 # 9007199254740992)%Q;
+   (-8246834783784891 # 9007199254740992)%Q;
+   (8224823991145201 # 9007199254740992)%Q;
+   (-8202871945285983 # 9007199254740992)%Q;
+   (8180978489412147 # 9007199254740992)%Q;
+   (-8159143467147087 # 9007199254740992)%Q;
+   (4068683361265785 # 4503599627370496)%Q;
+   (-4057824050011307 # 4503599627370496)%Q;
+   (8093987444492383 # 9007199254740992)%Q;
+   (-4036192300613539 # 4503599627370496)%Q;
+   (8050839415925829 # 9007199254740992)%Q;
+   (-2007337933674899 # 2251799813685248)%Q;
+   (2001980351017517 # 2251799813685248)%Q;
+   (-998318533871071 # 1125899906842624)%Q;
+   (3982616091367479 # 4503599627370496)%Q;
+   (-992996623389569 # 1125899906842624)%Q;
+   (495173158266689 # 562949953421312)%Q;
+   (-7901624666745327 # 9007199254740992)%Q;
+   (492533452469663 # 562949953421312)%Q;
+   (-7859502099941135 # 9007199254740992)%Q;
+   (3919262548896607 # 4503599627370496)%Q;
+   (-977200510405015 # 1125899906842624)%Q;
+   (3898369453425513 # 4503599627370496)%Q;
+   (-485995588724621 # 562949953421312)%Q;
+   (7755175472834621 # 9007199254740992)%Q;
+   (-3867238459167777 # 4503599627370496)%Q;
+   (7713833608254857 # 9007199254740992)%Q;
+   (-961655674393155 # 1125899906842624)%Q;
+   (3836356065976475 # 4503599627370496)%Q;
+   (-7652233672016721 # 9007199254740992)%Q;
+   (7631809869066723 # 9007199254740992)%Q;
+   (-1902860144305881 # 2251799813685248)%Q;
+   (7591125650997041 # 9007199254740992)%Q;
+   (-7570864945285505 # 9007199254740992)%Q;
+   (943832289421803 # 1125899906842624)%Q;
+   (-7530505616935547 # 9007199254740992)%Q;
+   (3755203353012919 # 4503599627370496)%Q;
+   (-7490361439086441 # 9007199254740992)%Q;
+   (3735184836470831 # 4503599627370496)%Q;
+   (-7450431264797941 # 9007199254740992)%Q;
+   (7430546072242833 # 9007199254740992)%Q;
+   (-7410713953243993 # 9007199254740992)%Q;
+   (7390934766148159 # 9007199254740992)%Q;
+   (-460700523105009 # 562949953421312)%Q;
+   (3675767311470911 # 4503599627370496)%Q;
+   (-7331913385411123 # 9007199254740992)%Q;
+   (3656172258470517 # 4503599627370496)%Q;
+   (-3646413938879295 # 4503599627370496)%Q;
+   (3636681664231941 # 4503599627370496)%Q;
+   (-1813487682507265 # 2251799813685248)%Q;
+   (7234589943797337 # 9007199254740992)%Q;
+   (-7215280831482003 # 9007199254740992)%Q;
+   (3598011627582717 # 4503599627370496)%Q;
+   (-7176817077298107 # 9007199254740992)%Q;
+   (7157662160697621 # 9007199254740992)%Q;
+   (-55769987254279 # 70368744177664)%Q;
+   (222484548887415 # 281474976710656)%Q;
+   (-7100503612159413 # 9007199254740992)%Q].
+Definition wl_cex_u : nat := 44.
+Definition wl_cex_v : nat := 45.
+
+Lemma wf_graph_b (g : graph) : forallb (forallb (fun v => v <? length g)) g = true -> wf_graph g.
+Proof.
+  intros H u v Hin. unfold row in Hin.
+  destruct (Nat.lt_ge_cases u (length g)) as [L|L].
+  - rewrite forallb_forall in H. pose proof (H (nth u g []) (nth_In g [] L)) as H1.
+    rewrite forallb_forall in H1. apply Nat.ltb_lt. apply H1. exact Hin.
+  - rewrite nth_overflow in Hin by exact L. destruct Hin.
+Qed.
+
+Theorem wl_colouring_is_refinement_refuted :
+  wf_graph wl_cex_g /\ length wl_cex_g = 90 /\ length wl_cex_powers = 90 /\
+  nthn (color_weisfeiler_lehman wl_sort wl_cex_g wl_cex_powers (-1)) wl_cex_u
+  = nthn (color_weisfeiler_lehman wl_sort wl_cex_g wl_cex_powers (-1)) wl_cex_v /\
+  cr_fix wl_cex_g wl_cex_u wl_cex_v = false.
+Proof.
+  split; [apply wf_graph_b; vm_compute; reflexivity|].
+  split; [reflexivity|]. split; [reflexivity|]. split; [vm_compute; reflexivity|].
+  destruct (cr_fix wl_cex_g wl_cex_u wl_cex_v) eqn:E; [|reflexivity]. exfalso.
+  assert (H : cr_iter wl_cex_g 2 wl_cex_u wl_cex_v = true).
+  { apply (cr_iter_mono wl_cex_g 2 88). exact E. }
+  assert (H2 : cr_iter wl_cex_g 2 wl_cex_u wl_cex_v = false) by (vm_compute; reflexivity).
+  congruence.
 Qed.
